@@ -57,6 +57,8 @@ struct AtomRec
   std::map<std::string, Val> frozen;   // values at start (start + non-temporal parameters)
   bool has_frozen_end = false;
   Val frozen_end;
+  bool late = false; // created by a late requirement, at time 'added_at'
+  Val added_at;
 };
 
 struct Sim
@@ -322,7 +324,7 @@ static void run_cmd(const sim::Cmd &c, sim::Out &out)
   const uint64_t layout = c.u64("layout", 0);
   const bool verbose = c.num("verbose", 0) != 0;
   g_q_delay_timelines = c.num("q_delay_timelines", 1) != 0;
-  const bool q_late = c.num("q_late_requirements", 1) != 0; // quarantine of KF-X2: no late requirements during execution
+  const bool q_late = c.num("q_late_requirements", 0) != 0; // was the quarantine of KF-X2 (closed by the KF-33 repair): late requirements are explored
   std::vector<Op> ops;
   long upt_i = c.num("upt", -1);
   if (c.verb == "run" || c.verb == "gen")
@@ -543,12 +545,27 @@ static void run_cmd(const sim::Cmd &c, sim::Out &out)
             sim.log.ev("late " + b.m.stmts.back().text);
             if (verbose)
               out.line("T late: " + b.m.stmts.back().text);
+            sim.reindex();
+            const size_t atoms_before = sim.order.size();
             sim.s->read(b.m.stmts.back().text);
+            sim.reindex();
+            for (size_t ai = atoms_before; ai < sim.order.size(); ++ai)
+            {
+              sim.rec[sim.order[ai]].late = true;
+              sim.rec[sim.order[ai]].added_at = sim.now();
+            }
             if (!sim.s->solve())
             {
               ended = "late requirement made the problem unsolvable";
               break;
             }
+            sim.reindex();
+            for (size_t ai = atoms_before; ai < sim.order.size(); ++ai)
+              if (!sim.rec[sim.order[ai]].late)
+              { // sub-goals the solver created for it
+                sim.rec[sim.order[ai]].late = true;
+                sim.rec[sim.order[ai]].added_at = sim.now();
+              }
             ++sim.adaptations;
             // whether the adapted plan is still executable is only known at the next tick (it throws
             // execution_exception if not): the frozen-past and validity checks wait for that tick
@@ -589,6 +606,13 @@ static void run_cmd(const sim::Cmd &c, sim::Out &out)
         {
           sim.cnt.inc("x2.completed_atoms_checked");
           AtomRec &r = sim.rec[a];
+          Val st;
+          if (r.late && r.starts == 0 && sim.val(a, sim.is_impulse(a) ? "at" : "start", st) && vcmp(st, r.added_at) < 0)
+          { // a late requirement that the planner placed before the moment it was added: the executor only
+            // dispatches what is not yet in the past, and C19 quantifies over ticks, delays and failures only
+            sim.cnt.inc("x2.late_atom_planned_in_the_past");
+            continue;
+          }
           if (r.starts != 1 || r.ends != 1)
             sim.viol("X2.not_dispatched_exactly_once", "active atom " + sim.name(a) + " ending at " + vtext(en) + " (now " + vtext(sim.now()) + ") was started " + std::to_string(r.starts) + " and ended " + std::to_string(r.ends) + " times");
         }
